@@ -26,6 +26,9 @@ CHECKS = {
  'C17': dict(text='MC: product automata of the generic algorithms (standard and extracted from the code) and positional weighted-sum automata for ISBN-10/ISSN/EAN (Weighted.tla) prove single-substitution / adjacent-swap detection for all numbers; TRACE: exhaustive neighbourhood (every position x every same-class character, every adjacent pair of different digits) of corpus + synthesised valid numbers of the 30 bound modules recorded from the code; TLC checks that each edit is one the property talks about and that it was rejected (Trace_Typo.tla).',
              note='Module list and exclusions (with reasons) in bindings/single_error.json.',
              tech='TLC model checking of product automata + TLC trace validation of exhaustive neighbourhoods', ref='DESIGN.md §4 C17'),
+ 'C07': dict(text='Formats.tla / Bitcoin.tla transcribe the 19 formats from their standards (canonical form + accept predicate over code points; SHA-256 for Base58Check is itself specified in TLA+, Sha256.tla; ISO 3166 tables and IBAN structures are data taken from the repository). The driver records validate(x) for corpus numbers, every single-character replacement at every position over 0-9A-Z, deletions, insertions, swaps, hostile ASCII, padding/case variants, random strings at and around the format lengths, constructed Base58Check/Bech32 addresses for every witness version, program length and padding edge case, and block digests of the complete ISSN / IMO / EAN-8 payload spaces; TLC recomputes A1 accepted iff Accept(Canon(x)), A2 returned value = Canon(x), B1 every check character of every block.',
+             note='Agreement is with my TLA+ reading of each standard (BIP 173 for Bech32; IBAN compared with check_country=False, the national layer is C09); inputs are ASCII.',
+             tech='TLA+ transcriptions of the standards (Formats.tla, Bitcoin.tla, Sha256.tla) evaluated by TLC in trace validation', ref='DESIGN.md §4 C07'),
  'C08': dict(text='Convert.tla holds the conversion table (25 rows) with a positional embedding relation per row. For valid source numbers (corpus + synthesised) in compact, space- and hyphen-separated presentations and under the options (issue codes, regions) the driver records the conversion, the TARGET validator\'s verdict on the result and the inverse conversion; TLC judges K0 (converts, or refuses where documented), K1 (valid in the target format), K2 (embeds the same identity), K3 (inverse undoes it), K4 (independent of separators; session state).',
              note='Embedding relations were read off the functions\' docstrings; targets without a validator in the library are listed in the spec (NoTarget).',
              tech='TLA+ conversion table with per-row relations (Convert.tla) + TLC trace validation', ref='DESIGN.md §4 C08'),
